@@ -119,7 +119,7 @@ theorem coupled_run_exact {n N : ℕ} (e : Eig ℂ n N) (M Mi B K : Matrix (Fin 
     | nil => simp at h4
     | cons g1 rest =>
       simp only [List.map_cons] at h1 h2
-      rw [runModal] at h1 h2
+      rw [runModal_cons_cons] at h1 h2
       cases j with
       | zero =>
         simp only [List.getElem?_cons_zero, Option.some.injEq] at h1 h3
